@@ -220,6 +220,28 @@ func chain(a, b, c *inst, delta int32) (line string, slow bool) {
 	return fmt.Sprintf("c11x %s %d %s %s %s\t%s %s %s", gen.Hex([]byte(topic)), delta, a, b, c, res[0], res[1], res[2]), time.Since(t0) > time.Second
 }
 
+// versionCache: the first operation on a fresh Conn has to negotiate its version; the broker answers the ApiVersions
+// request with an error code — next to it no entry, the one entry brokers send with UnsupportedVersion, or its whole
+// table — and from then on normally.  The same operation is then called again.
+//
+//	c11v <topic hex> <ApiVersions body 1> <ApiVersions body 2> <A> <bodyA>\t<res1> <res2>
+func versionCache(a *inst, av1 []byte) (line string, slow bool) {
+	t0 := time.Now()
+	table := connfake.VersionTable(map[int16]int16{a.op.Key: a.v})
+	conn, br := connfake.Start(topic, table)
+	av2 := connfake.ApiVersionsBody(0, table)
+	br.Push(18, connfake.Resp{Body: av1, Cut: -1})
+	br.Push(18, connfake.Resp{Body: av2, Cut: -1})
+	br.Push(a.op.Key, connfake.Resp{Body: a.body, Cut: -1})
+	res1, _ := guarded(conn, a)
+	res2 := "hang"
+	if res1 != "hang" {
+		res2, _ = guarded(conn, a)
+	}
+	go func() { conn.Close(); br.Stop() }()
+	return fmt.Sprintf("c11v %s %s %s %s\t%s %s", gen.Hex([]byte(topic)), gen.Hex(av1), gen.Hex(av2), a, res1, res2), time.Since(t0) > time.Second
+}
+
 // slowLink: A is a fetch of which the caller reads one record and closes the batch; the broker delivers all but the
 // last bytes of A's frame, then nothing for `pause` (longer than A's 200 ms deadline), then the rest and whatever it
 // is asked next.  Nothing is lost — but if Close gives up skipping the rest of the response when the deadline expires,
@@ -640,6 +662,39 @@ func main() {
 			a.op.Build(v, w, r, a.sh)
 			a.body = w.B
 			emit(a, follower(a))
+		}
+	}
+	// the version cache: a broker error on the ApiVersions exchange of the first negotiating operation is what the
+	// caller gets, and the next call negotiates afresh — whatever list came with the error
+	for _, name := range []string{"produce", "metadata", "joinGroup", "createTopics", "deleteTopics", "saslHandshake", "fetch"} {
+		op := connfake.OpByName(name)
+		for _, v := range op.Versions {
+			code := codes[r.Intn(len(codes))]
+			for variant := 0; variant < 3; variant++ {
+				var av1 []byte
+				switch variant {
+				case 0:
+					av1 = connfake.ApiVersionsBody(code, nil)
+				case 1:
+					av1 = connfake.ApiVersionsBody(code, map[int16]int16{18: int16(r.Intn(4))})
+				default:
+					av1 = connfake.ApiVersionsBody(code, connfake.VersionTable(map[int16]int16{op.Key: v}))
+				}
+				a, _ := build(r, op, v, nil, false)
+				if name == "fetch" {
+					magic := int8(2)
+					if v < 4 {
+						magic = 1
+					}
+					a = buildFetch(r, v, magic, 3, 1, 0, 0)
+				}
+				l, slow := versionCache(a, av1)
+				fmt.Fprintln(out, l)
+				ncases++
+				if slow {
+					nslow++
+				}
+			}
 		}
 	}
 	// a slow link: the end of a fetch response arrives after the deadline of the Close that skips it
